@@ -21,7 +21,7 @@ class StepMonitor:
         # (copy.deepcopy, re, dataclass code; the harness itself excluded) plus one step per backward jump, i.e. per
         # loop iteration, inside pycparser: loops that call no Python function are otherwise invisible
         self.work = work
-        self.attrib = set()      # qualnames whose loop iterations are also counted separately (known-finding attribution)
+        self.attrib = None       # when not None: loop iterations are also counted per code object (known-finding attribution)
         self.attributed = 0
         self.attributed_by = {}
         self.harness = os.path.dirname(os.path.abspath(__file__))
@@ -54,9 +54,9 @@ class StepMonitor:
     def _jump(self, code, offset, dest):
         if dest < offset and code.co_filename.startswith(self.pkg):
             self.n += 1
-            if code.co_qualname in self.attrib:
-                self.attributed += 1
-                self.attributed_by[code.co_qualname] = self.attributed_by.get(code.co_qualname, 0) + 1
+            if self.attrib is not None:
+                # loop iterations per code object (known-finding attribution looks at the single hottest loop)
+                self.attributed_by[code] = self.attributed_by.get(code, 0) + 1
             if self.budget is not None and self.n > self.budget:
                 self.budget = None
                 raise StepBudgetExceeded(self.n)
